@@ -252,6 +252,86 @@ theorem c30_unrestricted_sharing (book : List (NodeRec τ)) (me : Nat) (ts : Lis
   · rintro ⟨n, ⟨⟨hb, hs⟩, ht⟩, rfl⟩; exact ⟨n, hb, rfl, hs, ht⟩
   · rintro ⟨n, hb, rfl, hs, ht⟩; exact ⟨n, ⟨⟨hb, hs⟩, ht⟩, rfl⟩
 
+
+/-! ### Ties to the current source text (`P2/Extracted/C30.lean` is regenerated on every run) -/
+
+/-- Which direction byte each role hashes its own topics with (what it *sends*) and which it checks
+the peer's digests against, read from the bodies of `alice` and `bob` (through their
+`alice_final_salt` / `bob_final_salt` definitions): Alice sends with the Alice byte and checks with the
+Bob byte, Bob the other way round — … -/
+theorem c30_salt_use_is_source :
+    P2.Extracted.C30.aliceSendByte = P2.Extracted.C30.aliceSaltByte
+    ∧ P2.Extracted.C30.aliceCheckByte = P2.Extracted.C30.bobSaltByte
+    ∧ P2.Extracted.C30.bobSendByte = P2.Extracted.C30.bobSaltByte
+    ∧ P2.Extracted.C30.bobCheckByte = P2.Extracted.C30.aliceSaltByte := by decide
+
+/-- … which is what the model's role functions do with their `aByte` / `bByte` parameters. -/
+theorem c30_model_salt_use (h : Hash τ) (aByte bByte : Nat) (p : Party τ) (sa sb : List Nat)
+    (ts : List τ) (ids : List Nat) :
+    (alice h aByte bByte p sa [.bobData sb ts, .nodes ids]).2
+        = .ok { topics := computeIntersection h p.topics ts (combineSalt sa sb bByte), nodes := ids }
+    ∧ (alice h aByte bByte p sa [.bobData sb ts, .nodes ids]).1.drop 1
+        = [.aliceData (hashVector h p.topics (combineSalt sa sb aByte)),
+           .nodes (gather p.restricted p.book p.me (computeIntersection h p.topics ts (combineSalt sa sb bByte)))]
+    ∧ (bob h aByte bByte p sb [.aliceSaltHalf sa, .aliceData ts, .nodes ids]).2
+        = .ok { topics := computeIntersection h p.topics ts (combineSalt sa sb aByte), nodes := ids }
+    ∧ (bob h aByte bByte p sb [.aliceSaltHalf sa, .aliceData ts, .nodes ids]).1.take 1
+        = [.bobData sb (hashVector h p.topics (combineSalt sa sb bByte))] := by
+  refine ⟨rfl, rfl, rfl, rfl⟩
+
+/-- `combine_salt` lays the salt out as Alice's half, Bob's half, direction byte (the model's
+`a ++ b ++ [dir]`); `hash` feeds BLAKE3 the topic first and the salt second; `hash_vector` hashes every
+topic with the one salt it is given and `compute_intersection` hashes the local topics with the salt
+it is given. -/
+theorem c30_salt_layout_is_source :
+    [P2.Extracted.C30.saltPart0, P2.Extracted.C30.saltPart1, P2.Extracted.C30.saltPart2]
+        = ["alice_salt_half", "bob_salt_half", "pair_byte"]
+    ∧ [P2.Extracted.C30.hashInput0, P2.Extracted.C30.hashInput1] = ["data", "salt"]
+    ∧ P2.Extracted.C30.hashVectorArg = "hash(topic.as_bytes(), salt)"
+    ∧ P2.Extracted.C30.ciHashes = "hash_vector(local_topics, salt)" := by decide
+
+/-- `compute_intersection`: the model's filter is the fold of the loop body that rs2lean regenerates
+from the current source — the RAW local topic is collected iff its hash is in the remote set. -/
+theorem c30_intersection_is_source (h : Hash τ) (loc remote : List τ) (salt : List Nat) :
+    computeIntersection h loc remote salt
+      = loc.foldr (fun t acc => P2.Extracted.C30.ciBody acc remote t (h t salt)) [] := by
+  unfold computeIntersection
+  induction loc with
+  | nil => rfl
+  | cons t ts ih =>
+    simp only [List.foldr_cons, List.filter_cons, decide_eq_true_eq]
+    rw [← ih]
+    simp only [P2.Extracted.C30.ciBody]
+
+/-- `gather_transport_infos`: the branch on `share_nodes_with_common_topics` (the anchor of the
+translation pins the condition itself), what the restricted branch collects (topic query, plus our own
+info when it is not among the results and known), what the other branch collects, and the final filter
+on `transports()` are the translations of the current source. -/
+theorem c30_gather_is_source (restricted : Bool) (book : List (NodeRec τ)) (me : Nat) (ts : List τ) :
+    gatherInfos restricted book me ts
+      = (if restricted then
+          P2.Extracted.C30.gatherRestricted (byTopics book ts)
+            ((byTopics book ts).any (fun n => n.id == me)) (book.find? (fun n => n.id == me))
+         else P2.Extracted.C30.gatherUnrestricted (book.filter (fun n => !n.stale)))
+    ∧ gather restricted book me ts
+      = (gatherInfos restricted book me ts).foldr
+          (fun n acc => P2.Extracted.C30.gatherMapBody acc n.id (if n.hasTransport then some () else none)) [] := by
+  constructor
+  · unfold gatherInfos P2.Extracted.C30.gatherRestricted P2.Extracted.C30.gatherUnrestricted
+    cases restricted
+    · simp
+    · simp only [if_true]
+      cases hany : (byTopics book ts).any (fun n => n.id == me)
+      · cases hf : book.find? (fun n => n.id == me) <;> simp
+      · simp
+  · unfold gather
+    induction gatherInfos restricted book me ts with
+    | nil => rfl
+    | cons n ns ih =>
+      simp only [List.foldr_cons, List.filter_cons]
+      rw [← ih]
+      cases n.hasTransport <;> simp [P2.Extracted.C30.gatherMapBody]
+
 /-! ### Non-vacuity: a collision-free hash exists and the protocol computes something non-trivial -/
 
 /-- A concrete collision-free hash on `Nat × List Nat` codes: digests are tagged pairs. -/
